@@ -15,27 +15,38 @@ func init() {
 // non-document event) since the last successful save equals the position
 // tracked when the save began; a save with nothing advanced writes nothing.
 func H_C05_seq() {
-	setMerge(true)
+	vNVcur = 2
 	K := 4
 	if tierThorough() {
 		K = 5
 	}
+	vC05Seq(K)
+}
+
+// H_C05_seq3: the same histories over three vBuckets (K=4).
+func H_C05_seq3() {
+	vNVcur = 3
+	vC05Seq(4)
+}
+
+func vC05Seq(K int) {
+	setMerge(true)
 	ss := vNewSession()
 	for st := 0; st < K; st++ {
 		switch choose("op", 7) {
 		case 0:
-			ss.deliverDoc(choose("vb", vNVB), 0, true)
+			ss.deliverDoc(choose("vb", vNV()), 0, true)
 		case 1:
-			ss.deliverDoc(choose("vb", vNVB), 0, false)
+			ss.deliverDoc(choose("vb", vNV()), 0, false)
 		case 2:
 			n := len(ss.fc.consumed)
 			assume(n > 0)
 			ss.ackIdx(choose("ackidx", n))
 		case 3:
-			ss.deliverReserved(choose("vb", vNVB), []byte("_txn:abc"))
+			ss.deliverReserved(choose("vb", vNV()), []byte("_txn:abc"))
 		case 4:
 			cover("control-event")
-			ss.deliverControl(choose("vb", vNVB), choose("ckind", vControlKinds()))
+			ss.deliverControl(choose("vb", vNV()), choose("ckind", vControlKinds()))
 		case 5:
 			vC05Save(ss, true)
 		case 6:
@@ -48,7 +59,7 @@ func H_C05_seq() {
 
 func vC05Save(ss *vSession, succeed bool) {
 	var at [vNVB]*models.Offset
-	for vb := 0; vb < vNVB; vb++ {
+	for vb := 0; vb < vNV(); vb++ {
 		at[vb] = ss.tracked(vb)
 	}
 	adv := ss.advanced
@@ -59,15 +70,15 @@ func vC05Save(ss *vSession, succeed bool) {
 	wrote := false
 	if len(ss.fm.calls) > before {
 		call := ss.fm.calls[len(ss.fm.calls)-1]
-		for vb := 0; vb < vNVB; vb++ {
+		for vb := 0; vb < vNV(); vb++ {
 			if call.dirty[uint16(vb)] {
 				wrote = true
 			}
 		}
 	}
-	if !adv[0] && !adv[1] {
+	if !adv[0] && !adv[1] && !adv[2] {
 		cover("idle-save")
-		if ss.reacked[0] || ss.reacked[1] {
+		if ss.reacked[0] || ss.reacked[1] || ss.reacked[2] {
 			// scenario kept apart so that a known finding about it cannot mask any other idle-save write
 			assert(!wrote, "idle save after a repeated acknowledgement of the tracked event performs no write")
 		} else {
@@ -79,7 +90,7 @@ func vC05Save(ss *vSession, succeed bool) {
 		return // nothing may be forgotten: `advanced` stays as it is
 	}
 	cover("save-ok")
-	for vb := 0; vb < vNVB; vb++ {
+	for vb := 0; vb < vNV(); vb++ {
 		if adv[vb] {
 			cover("advanced-vb-saved")
 			doc, ok := ss.fm.store[uint16(vb)]
@@ -96,6 +107,7 @@ func vC05Save(ss *vSession, succeed bool) {
 // reset). After a quiescent tail of two further successful saves the durable
 // checkpoint of every vBucket must equal its tracked position.
 func H_C05_race() {
+	vNVcur = 2
 	sharedFields("anyDirtyOffset", "dirtyOffsets")
 	ss := vNewSession()
 	ss.deliverDoc(0, 0, true)  // vBucket 0: settled before the save
@@ -112,7 +124,7 @@ func H_C05_race() {
 	ss.fm.onSave = nil
 	ss.s.checkpoint.Save()
 	ss.s.checkpoint.Save()
-	for vb := 0; vb < vNVB; vb++ {
+	for vb := 0; vb < vNV(); vb++ {
 		doc, ok := ss.fm.store[uint16(vb)]
 		want := ss.tracked(vb)
 		if (vb == 0) != (racer == 1) {
